@@ -20,6 +20,7 @@ type ltsLogEntry struct {
 	kind byte // 'M' marker, 'S' seek, 'R' read
 	a    int64
 	n    int
+	bad  bool // the call failed (injected fault, or an invalid position)
 }
 
 type ltsLog struct {
@@ -39,10 +40,30 @@ type tracedReader struct {
 	data []byte
 	pos  int64
 	log  *ltsLog
+	// fault injection: once armed, the underlying calls number failFrom .. failFrom+failLen-1 fail
+	armed             bool
+	calls             int
+	failFrom, failLen int
+}
+
+var errC02Injected = errors.New("injected fault of the underlying reader")
+
+// faulty says whether the call now being made is to fail (called with the log lock not held).
+func (t *tracedReader) faulty() bool {
+	if !t.armed || t.failLen == 0 {
+		return false
+	}
+	k := t.calls
+	t.calls++
+	return k >= t.failFrom && k < t.failFrom+t.failLen
 }
 
 func (t *tracedReader) Read(p []byte) (int, error) {
-	t.log.add(ltsLogEntry{'R', t.pos, len(p)})
+	if t.faulty() {
+		t.log.add(ltsLogEntry{'R', t.pos, len(p), true})
+		return 0, errC02Injected
+	}
+	t.log.add(ltsLogEntry{'R', t.pos, len(p), false})
 	if t.pos >= int64(len(t.data)) {
 		return 0, io.EOF
 	}
@@ -52,7 +73,11 @@ func (t *tracedReader) Read(p []byte) (int, error) {
 }
 
 func (t *tracedReader) ReadByte() (byte, error) {
-	t.log.add(ltsLogEntry{'R', t.pos, 1})
+	if t.faulty() {
+		t.log.add(ltsLogEntry{'R', t.pos, 1, true})
+		return 0, errC02Injected
+	}
+	t.log.add(ltsLogEntry{'R', t.pos, 1, false})
 	if t.pos >= int64(len(t.data)) {
 		return 0, io.EOF
 	}
@@ -65,10 +90,15 @@ func (t *tracedReader) Seek(off int64, whence int) (int64, error) {
 	if whence != io.SeekStart {
 		return 0, errors.New("tracedReader: unsupported whence")
 	}
-	t.log.add(ltsLogEntry{'S', off, 0})
 	if off < 0 {
+		t.log.add(ltsLogEntry{'S', off, 0, true})
 		return 0, errors.New("tracedReader: negative position")
 	}
+	if t.faulty() {
+		t.log.add(ltsLogEntry{'S', off, 0, true})
+		return 0, errC02Injected
+	}
+	t.log.add(ltsLogEntry{'S', off, 0, false})
 	t.pos = off
 	return off, nil
 }
@@ -83,6 +113,7 @@ type ltsTrace struct {
 	sticky bool
 	nmark  int
 	broken string
+	faults bool // fault run: the number of nextBlock calls of a Read is not derived (script op N)
 }
 
 func (x *ltsTrace) idx(file int64) int {
@@ -99,7 +130,7 @@ func (x *ltsTrace) idx(file int64) int {
 
 func (x *ltsTrace) mark() {
 	x.script = append(x.script, fmt.Sprintf("m%d", x.nmark))
-	x.log.add(ltsLogEntry{'M', int64(x.nmark), 0})
+	x.log.add(ltsLogEntry{'M', int64(x.nmark), 0, false})
 	x.nmark++
 }
 
@@ -115,6 +146,10 @@ func (x *ltsTrace) after(op c02Op, n int, e error, lc bgzf.Chunk, blocked bool) 
 			x.sticky = true
 		}
 	case "r", "b":
+		if x.faults {
+			x.script = append(x.script, "N")
+			return
+		}
 		if x.sticky {
 			return
 		}
@@ -136,51 +171,85 @@ func (x *ltsTrace) after(op c02Op, n int, e error, lc bgzf.Chunk, blocked bool) 
 	}
 }
 
-// events turns the raw log into markers and member loads.
+// events turns the raw log into markers and member loads.  A load is a Seek (if any) followed by the reads of
+// one member; it is reported where it starts; it is a failed one if any of its calls failed or it starts at
+// the end of the file.
 func (x *ltsTrace) events() ([]string, error) {
-	var out []string
-	pending := int64(-2)
+	type ld struct {
+		off    int64
+		sk, ok int
+		x      bool
+	}
+	var out []interface{}
+	var cur *ld
+	pendingSeek := false
 	first := true
 	for _, en := range x.log.entries {
 		switch en.kind {
 		case 'M':
 			out = append(out, fmt.Sprintf("M%d", en.a))
 		case 'S':
+			cur = &ld{off: en.a, sk: 1, ok: 1}
+			pendingSeek = true
 			if en.a < 0 {
-				out = append(out, "Lx:1:0")
-				pending = -2
-			} else {
-				pending = en.a
+				cur.x = true
 			}
+			if en.bad {
+				cur.ok = 0
+				pendingSeek = false
+			} else if en.a == x.f.length {
+				cur.ok = 0
+			}
+			out = append(out, cur)
+			first = false
 		case 'R':
 			if en.n == 0 {
 				continue
 			}
-			if x.idx(en.a) < 0 {
-				continue // inside a member: continuation of the current load
-			}
-			sk, ok := 0, 1
-			if pending == en.a {
-				sk = 1
-			}
-			if en.a == x.f.length {
-				ok = 0
-			}
-			pending = -2
-			if first {
-				first = false
-				if en.a != 0 || sk != 0 {
-					return nil, fmt.Errorf("first load is not the one of NewReader: L%d:%d", en.a, sk)
+			if pendingSeek && cur != nil && cur.off == en.a {
+				pendingSeek = false // the first read of the load that began with the Seek
+			} else if x.idx(en.a) >= 0 {
+				pendingSeek = false
+				cur = &ld{off: en.a, sk: 0, ok: 1}
+				if en.a == x.f.length {
+					cur.ok = 0
 				}
-				continue
+				if first {
+					first = false
+					if en.a != 0 {
+						return nil, fmt.Errorf("first load is not the one of NewReader: L%d", en.a)
+					}
+					cur.x = true
+					cur.off = -2 // dropped below
+				}
+				out = append(out, cur)
 			}
-			out = append(out, fmt.Sprintf("L%d:%d:%d", en.a, sk, ok))
+			if en.bad && cur != nil {
+				cur.ok = 0
+			}
 		}
 	}
-	return out, nil
+	var evs []string
+	for _, o := range out {
+		switch v := o.(type) {
+		case string:
+			evs = append(evs, v)
+		case *ld:
+			if v.off == -2 {
+				continue
+			}
+			if v.x {
+				evs = append(evs, "Lx:1:0")
+			} else {
+				evs = append(evs, fmt.Sprintf("L%d:%d:%d", v.off, v.sk, v.ok))
+			}
+		}
+	}
+	return evs, nil
 }
 
 type c02LtsCase struct {
+	faults bool
 	line   string
 	in     c02Input
 	nev    int
@@ -214,6 +283,85 @@ func (x *ltsTrace) finish(in c02Input) {
 		ev = strings.Join(evs, ",")
 	}
 	c02LtsCases = append(c02LtsCases, c02LtsCase{
-		line: fmt.Sprintf("c02.lts %d 0 %s %s %s", x.rd, strings.Join(cs, ","), strings.Join(x.script, ","), ev),
-		in:   in, nev: len(evs), nloads: nl})
+		line: fmt.Sprintf("c02.lts %d %d %s %s %s", x.rd, map[bool]int{false: 0, true: 1}[x.faults], strings.Join(cs, ","), strings.Join(x.script, ","), ev),
+		in:   in, nev: len(evs), nloads: nl, faults: x.faults})
+}
+
+// runC02Fault runs a history over an underlying reader that fails a window of its calls (after NewReader
+// has returned), with read-ahead.  Judged here: no call hangs, nothing panics; the observed trace must be a
+// path of the protocol model with faults (c02.lts … 1 …).  What the calls return under faults is C09's subject.
+func runC02Fault(c *ctx, f *c02File, ops []c02Op, rd int, procs int) {
+	r := c.res
+	failFrom := c.rnd.intn(70)
+	failLen := c.rnd.pick([]int{1, 1, 2, 5, 100000})
+	in := c02Input{File: c02File{Blocks: f.Blocks}, Ops: ops, Rd: rd, Procs: procs, FailFrom: failFrom, FailLen: failLen, Fault: true}
+	if hm := fmt.Sprintf("fault.rd%d", rd); c02Hangs[hm] >= c02MaxHangs {
+		r.hist("skipped-after-" + fmt.Sprint(c02MaxHangs) + "-hangs." + hm)
+		return
+	}
+	lg := &ltsLog{}
+	src := &tracedReader{data: f.raw, log: lg, failFrom: failFrom, failLen: failLen}
+	lts := &ltsTrace{f: f, log: lg, rd: rd, faults: true}
+	var bg *bgzf.Reader
+	var err error
+	o := guardTimeout(c02OpTimeout, func() { bg, err = bgzf.NewReader(src, rd) })
+	if o.timedOut || o.panicked || err != nil {
+		return // judged by the fault-free runs
+	}
+	lts.mark()
+	src.armed = true // the marker orders this write before every later call of the consumer; the worker
+	// may have a load in flight, which then simply precedes the window
+	maxN := 0
+	for _, op := range ops {
+		if op.N > maxN {
+			maxN = op.N
+		}
+	}
+	buf := make([]byte, maxN+1)
+	r.hist(fmt.Sprintf("fault.run.rd%d", rd))
+	for k, op := range ops {
+		if op.Kind == "B" {
+			bg.Blocked = op.On
+			continue
+		}
+		lts.mark()
+		var e error
+		o := guardTimeout(c02OpTimeout, func() {
+			switch op.Kind {
+			case "r":
+				_, e = bg.Read(buf[:op.N])
+			case "b":
+				_, e = bg.ReadByte()
+			case "s":
+				e = bg.Seek(bgzf.Offset{File: op.File, Block: uint16(op.Block)})
+			}
+		})
+		if o.timedOut {
+			r.fail(fmt.Sprintf("c02.fault.hang.%s.rd%d", op.Kind, rd), fmt.Sprintf("op %d (%s) did not return after an injected fault", k, op.model()), in)
+			c02Hangs[fmt.Sprintf("fault.rd%d", rd)]++
+			return
+		}
+		if o.panicked {
+			r.fail("panic:"+topRepoFrame(o.stack), fmt.Sprintf("op %d (%s) after an injected fault: %s", k, op.model(), o.panicVal), in)
+			return
+		}
+		if e != nil && e != io.EOF {
+			r.hist("fault.api-error")
+		}
+		lts.after(op, 0, e, bgzf.Chunk{}, false)
+		lts.mark()
+	}
+	lts.mark()
+	lts.script = append(lts.script, "c")
+	o = guardTimeout(c02OpTimeout, func() { bg.Close() })
+	if o.timedOut {
+		r.fail(fmt.Sprintf("c02.fault.hang.Close.rd%d", rd), "Close did not return after an injected fault", in)
+		c02Hangs[fmt.Sprintf("fault.rd%d", rd)]++
+		return
+	}
+	if o.panicked {
+		r.fail("panic:"+topRepoFrame(o.stack), "Close after an injected fault: "+o.panicVal, in)
+		return
+	}
+	lts.finish(in)
 }
